@@ -41,7 +41,8 @@ CHECKS = {
         technique="total enumeration of operation kind x source database x mapping shape x entry order through the real ChannelWriter against a reference mapping function",
         text="Every operation kind (18 op messages, 4 API events, 5 DML kinds, the 3 readiness probes they trigger) is pushed through the real ChannelWriter for every source database, mapping shape, insertion order of mapping entries and downstream answer; every call recorded at the fake DataHandler is compared with the reference mapping (routing database, request db/collection fields) and the writer's bookkeeping keys with source-name keys.",
         note="Finite input space enumerated completely. sync.Map iteration order is random and outside the harness' control: multi-entry mappings are repeated 24x (200x thorough) under every insertion order and all repetitions must agree. RBAC entity fields are C20's business.",
-        parts=[part("names", "core", "writer", "TestVerifC09Names", shards=(8, 16), budget=(150, 900))],
+        parts=[part("names", "core", "writer", "TestVerifC09Names", shards=(8, 16), budget=(150, 900)),
+               part("target", "core", "reader", "TestVerifC09Target")],
     ),
     "C20": dict(
         level="model_checking", engine="seq",
